@@ -37,7 +37,7 @@ static inline void havoc_read_ghosts(void)
   G_received = nondet_size_t(); G_delivered = nondet_size_t(); G_recv_calls = nondet_unsigned(); G_sslr_calls = nondet_unsigned(); G_rd_pos_calls = nondet_unsigned();
   G_rd_last = nondet_int(); G_errno = nondet_int(); G_ssl_last_ret = nondet_int(); G_ssl_last_err = nondet_int();
   G_close_calls = nondet_unsigned(); G_close_seq = nondet_unsigned(); G_close_sid = nondet_u64(); G_close_why = nondet_int();
-  G_dcb_calls = nondet_unsigned(); G_dcb_seq = nondet_unsigned(); G_dcb_sid = nondet_u64(); G_seq = nondet_unsigned();
+  G_hook_veto = 0; G_dcb_calls = nondet_unsigned(); G_dcb_seq = nondet_unsigned(); G_dcb_sid = nondet_u64(); G_seq = nondet_unsigned();
   G_ep_fd = nondet_int(); G_ep_events = nondet_unsigned(); G_ep_op = nondet_int(); G_ep_epfd = nondet_int(); G_ep_mods = nondet_unsigned(); G_ep_dels = nondet_unsigned(); G_ep_seq = nondet_unsigned();
   iora_sessmap_GKEY = nondet_u64(); IORA_TRUE = 1;
 }
@@ -45,7 +45,7 @@ static inline void havoc_read_ghosts(void)
  * everything received so far has been delivered (the invariant this function preserves); the read chunk is a sane size. */
 #define RA_PRE_COND(self, s) ((self)->_sessions.has && (self)->_sessions.val == (s) && (s)->id == iora_sessmap_GKEY && !(s)->closed && TLS_INV(s) && !TLS_HANDSHAKING(s) \
   && G_delivered == G_received && (self)->_config.ioReadChunk >= 1 && (self)->_config.ioReadChunk < POS_BOUND && !(self)->_cbMutex.held && G_close_calls < 1000 \
-  && G_ep_mods < 1000 && G_rd_last == 0 /* ghost: no read yet in this call */)
+  && G_ep_mods < 1000 && G_rd_last == 0 && !G_hook_veto /* ghosts: no read yet, no veto yet in this call */)
 
 typedef struct { unsigned c, rc, sc, pc, dc, m; size_t rcv, dlv; } read_snap;
 static inline read_snap snap_read(void) { read_snap g = { G_close_calls, G_recv_calls, G_sslr_calls, G_rd_pos_calls, G_dcb_calls, G_ep_mods, G_received, G_delivered }; return g; }
@@ -70,6 +70,7 @@ static void ra_post(TcpEngine *self, Session *s, const Session *s0p, const TcpEn
     __CPROVER_assert((G_close_why == TransportError_PeerClosed) == (G_rd_last == IORA_RD_EOF), "R4 EOF <=> closed with PeerClosed");
     __CPROVER_assert(G_close_why == TransportError_PeerClosed || (tls ? G_close_why == TransportError_TLSIO : (G_close_why == TransportError_Socket && G_rd_last == IORA_RD_ERROR)),
                      "R4 otherwise a fatal I/O error (plain: Socket, TLS: TLSIO incl. a vetoing test hook)");
+    __CPROVER_assert(G_close_why == TransportError_PeerClosed || G_rd_last == IORA_RD_ERROR || G_hook_veto, "R4b a session is closed for an error only after a fatal answer (never after would-block or a successful read)");
     IORA_CANARY("readAvail: closed");
   }
   __CPROVER_assert(!E0._cbs.onData || G_delivered == G_received, "R1 everything received has been delivered when the call returns");
@@ -101,6 +102,20 @@ static void ra_post_rearm(TcpEngine *self, Session *s, const Session *s0p, const
 void h_readAvail(void) { RA_SETUP; TcpEngine_readAvail(self, s); IORA_CANARY("h_readAvail: returns"); ra_post(self, s, &s0, &E0, &g0); }
 void h_readAvail_rearm(void) { RA_SETUP; (void)E0; TcpEngine_readAvail(self, s); IORA_CANARY("h_readAvail_rearm: returns"); ra_post_rearm(self, s, &s0, &g0); }
 
+/* ===================== DFCC form: the tool checks the assigns clause (frame) on every assignment ===================== */
+void TcpEngine_readAvail_contract(TcpEngine *self, Session *s)
+__CPROVER_requires(IORA_TRUE && __CPROVER_is_fresh(self, sizeof(*self)) && __CPROVER_is_fresh(s, sizeof(*s)))
+__CPROVER_requires(self->_sessions.has && s->id == iora_sessmap_GKEY && !s->closed && TLS_INV(s) && !TLS_HANDSHAKING(s)
+                   && G_delivered == G_received && self->_config.ioReadChunk >= 1 && self->_config.ioReadChunk < POS_BOUND && !self->_cbMutex.held && G_close_calls < 1000
+                   && G_ep_mods < 1000 && G_rd_last == 0 && !G_hook_veto)
+__CPROVER_assigns(s->tlsWantWrite, s->lastActivity, s->closed, self->_sessions.has, self->_cbMutex.held, self->_atomicStats.bytesIn, READ_GHOSTS)
+/* R1 */ __CPROVER_ensures(self->_cbs.onData ==> G_delivered == G_received)
+/* R3 */ __CPROVER_ensures(G_close_calls == __CPROVER_old(G_close_calls) ==> (!s->closed && G_rd_last == IORA_RD_AGAIN))
+/* R5 */ __CPROVER_ensures(G_close_calls != __CPROVER_old(G_close_calls) ==> (G_close_calls == __CPROVER_old(G_close_calls) + 1 && G_close_seq == G_seq && !self->_sessions.has))
+/* R7 */ __CPROVER_ensures(self->_atomicStats.bytesIn - __CPROVER_old(self->_atomicStats.bytesIn) == G_received - __CPROVER_old(G_received))
+;
+void h_readAvail_dfcc(void) { TcpEngine *self; Session *s; TcpEngine_readAvail(self, s); IORA_CANARY("h_readAvail_dfcc: returns"); }
+
 #ifdef IORA_SEARCH
 /* SEARCH: the same function and the same clauses on a small CONCRETE scenario (bounded; only used to obtain an input for REPLAY).
  *   MODE 0 = plain TCP, 1 = TLS established;  HASCB data callback registered;  CHUNK = ioReadChunk (1..4);  REARM 1 = check clause R8
@@ -112,7 +127,7 @@ void h_search(void)
   __CPROVER_assume(MODE <= 1 && HASCB <= 1 && CHUNK >= 1 && CHUNK <= 4 && REARM <= 1);
   __CPROVER_assume(MODE == 1 || (SCR[0] != 0xFD && SCR[1] != 0xFD && SCR[2] != 0xFD && SCR[3] != 0xFD && SCR[4] != 0xFD && SCR[5] != 0xFD && SCR[6] != 0xFD && SCR[7] != 0xFD));
   for (unsigned i = 0; i < 8; i++) IORA_ENV_SCRIPT[i] = SCR[i];
-  IORA_ENV_i = 0; IORA_TRUE = 1;
+  IORA_ENV_i = 0; IORA_TRUE = 1; IORA_HOOK_ALLOWS = 1;
   TcpEngine E = {0}; TcpEngine *self = &E;
   Session *s = malloc(sizeof(Session)); __CPROVER_assume(s != NULL);
   Session z = {0}; *s = z;
